@@ -151,12 +151,100 @@ func recvObject(f *Func) types.Object {
 
 var _ = strings.Contains
 
+
+var (
+	pubsubOwners = map[string]bool{"pubsub.Queue": true, "pubsub.Deque": true}
+	queueOwner   = map[string]bool{"pubsub.Queue": true}
+	dequeOwner   = map[string]bool{"pubsub.Deque": true}
+	pipePkgs     = map[string]bool{"fun": true, "itertool": true, "adt": true, "dt": true}
+	allPkgs      = map[string]bool{"fun": true, "pubsub": true, "srv": true, "itertool": true, "adt": true, "dt": true, "erc": true, "ers": true, "ft": true}
+)
+
 func init() {
+	propChecks["C01"] = checkC01
+	propChecks["C02"] = checkC02
+	propChecks["C04"] = checkC04
+	propChecks["C05"] = checkC05
+	propChecks["C06"] = checkC06
 	propChecks["C07"] = checkC07
+	propChecks["C08"] = checkC08
+	propChecks["C09"] = checkC09
+	propChecks["C11"] = checkC11
+	propChecks["C12"] = checkC12
 	propChecks["C14"] = checkC14
+	propChecks["C15"] = checkC15
+	propChecks["C16"] = checkC16
+	propChecks["C17"] = checkC17
+	propChecks["C18"] = checkC18
+	propChecks["C19"] = checkC19
+	propChecks["C20"] = checkC20
 }
 
-var pubsubOwners = map[string]bool{"pubsub.Queue": true, "pubsub.Deque": true}
+func checkC01(c *Ctx) {
+	c.R.Clauses = append(c.R.Clauses,
+		"P1: the reader/worker start of every fan-out/fan-in construct is Once-guarded (a second reader stealing items or closing the pipe is the loss scenario)",
+		"P2: every pipe is closed only by its single sender or after the wait group that counts all of its senders, and is closed at all",
+		"G2: WaitGroup.Launch/DoTimes/Add/StartGroup count a worker before it starts, Done is the deferred PostHook of the started operation",
+		"X5/PS1: ChanSend.Write is the only send site; its blocking arm cannot drop an item (no default), Read's blocking arm likewise",
+		"X1: every worker loop drops exactly the skipped element and goes on")
+	c.R.NotCov = append(c.R.NotCov, "equality of the output and input multisets as values", "input order for a single worker / Buffer", "the semantics of Go channels themselves")
+	ruleP1(c, pipePkgs, 11)
+	ruleP2(c, pipePkgs, 15)
+	ruleG2(c)
+	ruleX5(c)
+	rulePS1(c)
+	ruleX1(c, 10)
+}
+
+func checkC02(c *Ctx) {
+	c.R.Clauses = append(c.R.Clauses,
+		"T1: the decision table of Iterator.ReadOne (nil→value, skip→retry, terminating→returned, other→recorded + io.EOF), close-on-error, closed-first, Next tests the flag, doClose once",
+		"X1: the decision table of every producer/processor/transform/reducer loop continues on ErrIteratorSkip and never turns a nil error into a terminating one")
+	c.R.NotCov = append(c.R.NotCov, "equality of the produced sequence with filter/map/concat/fold on all inputs and operator trees", "JSON round trips", "the values of Producer.Join's state machine")
+	ruleT1(c)
+	ruleX1(c, 10)
+}
+
+func checkC04(c *Ctx) {
+	c.R.Clauses = append(c.R.Clauses,
+		"B1: no goroutine of the pipeline packages can block on a channel without a ctx.Done()/default way out", "B2: nothing blocks while holding a mutex",
+		"P1b: lazily started background work runs under the iterator's cancellable context", "P2: every pipe fed by a finite input is eventually closed (the consumer reaches io.EOF)",
+		"P3: closing a derived iterator closes its upstream", "T1: Close is idempotent and only cancels (doClose under sync.Once)")
+	c.R.NotCov = append(c.R.NotCov, "that user functions return", "'promptly' as a time bound", "goroutines parked in sync.Once.Do behind Buffer's Once().Go() (they unwind when the pump ends)")
+	ruleB1(c, pipePkgs, 20)
+	ruleB2(c, pipePkgs, 2)
+	ruleP1(c, pipePkgs, 11)
+	ruleP2(c, pipePkgs, 15)
+	ruleP3(c)
+	ruleT1(c)
+}
+
+func checkC05(c *Ctx) {
+	c.R.Clauses = append(c.R.Clauses,
+		"L1/L2: every access to Queue state is under q.mu", "L4: every Queue operation (and the iterator closure) is a single critical section", "D3b: a push links only after the closed test and a successful tracker.add; a removal is paired with tracker.remove",
+		"X2: the three trackers account alike (+1 exactly on nil, -1 at most once)", "X6: Len is the tracker's length", "D5: link nil discipline")
+	c.R.NotCov = append(c.R.NotCov, "linearizability over all histories (FIFO/real-time order)", "the credit arithmetic", "Len <= limit as a number")
+	lockRules(c, queueOwner, map[string]int{"L1": 8, "L2": 4})
+	ruleL4(c, queueOwner, 8)
+	ruleD3dom(c, 3)
+	ruleX2(c)
+	ruleX6(c, "Queue")
+	ruleD5(c, 2)
+}
+
+func checkC06(c *Ctx) {
+	c.R.Clauses = append(c.R.Clauses,
+		"L1/L2/L3: every access to Deque state is under dq.mtx; iterator closures leave only wrapped in WithLock", "L4: single critical section per operation",
+		"D3/D3b: links change in balanced pairs together with the tracker, after the closed test and the successful add", "D7: force push evicts exactly one item from the opposite end and only when full", "X2, X6")
+	c.R.NotCov = append(c.R.NotCov, "linearizability over all histories", "'context error ⇒ no effect' on waitPop (path-sensitive)")
+	lockRules(c, dequeOwner, map[string]int{"L1": 12, "L2": 6, "L3": 2})
+	ruleL4(c, dequeOwner, 10)
+	ruleD3(c, map[string]bool{"pubsub": true}, 3)
+	ruleD3dom(c, 3)
+	ruleForcePush(c)
+	ruleX2(c)
+	ruleX6(c, "Deque")
+}
 
 func checkC07(c *Ctx) {
 	c.R.Clauses = append(c.R.Clauses,
@@ -164,48 +252,145 @@ func checkC07(c *Ctx) {
 		"W3/W6: every write of state that a wait predicate reads is followed, on every path, by a Broadcast of every cond whose waiters read it (Deque.Close, push, pop; Queue add, remove, close)",
 		"W4: every notification holds the cond's locker",
 		"W7: no blocking operation parks unconditionally (WaitFront on a non-empty deque)",
-		"L1/L2 for Queue and Deque (the predicate and the park happen in one critical section)")
+		"L1/L2/L4 for Queue and Deque (the predicate check and the park happen in one critical section)")
 	c.R.NotCov = append(c.R.NotCov, "the value of transition guards (== 1)", "fairness", "'promptly' as a time bound")
 	lockRules(c, pubsubOwners, map[string]int{"L1": 20, "L2": 8, "L3": 2})
+	ruleL4(c, pubsubOwners, 18)
 	condRules(c, pubsubOwners, map[string]int{"W1": 5, "W2": 5, "W2b": 5, "W3": 20, "W4": 20, "W6": 20, "W7": 2})
+}
+
+func checkC08(c *Ctx) {
+	c.R.Clauses = append(c.R.Clauses,
+		"K1: single writer of the subscriber set (the event-loop goroutine)", "K2: a dispatch worker never overlaps two messages and forwards exactly the received message",
+		"G1: the parallel dispatch branch waits for its counted senders", "B1: every subscriber send can give up on ctx.Done()")
+	c.R.NotCov = append(c.R.NotCov, "exactly-once / ordering over subscribe-unsubscribe timing", "FIFO of the distributor", "duplicates across several workers")
+	ruleBroker(c)
+	ruleG1(c, map[string]bool{"pubsub": true}, 3)
+	ruleB1(c, map[string]bool{"pubsub": true}, 30)
+}
+
+func checkC09(c *Ctx) {
+	c.R.Clauses = append(c.R.Clauses,
+		"B1: every broker/queue/deque channel operation can exit on its context", "B2: Broker.Wait does not hold the mutex Stop needs", "G1: event loop and workers are counted in b.wg, Wait waits on it",
+		"W3/W7 on the Deque distributor: the dispatcher cannot park while the buffer is non-empty, and is woken by every push/close", "K3: Stop reaches the cancel function")
+	c.R.NotCov = append(c.R.NotCov, "eventual dispatch as a liveness property over schedules", "LIFO / load-shedding semantics")
+	ruleB1(c, map[string]bool{"pubsub": true}, 30)
+	ruleB2(c, map[string]bool{"pubsub": true}, 2)
+	ruleG1(c, map[string]bool{"pubsub": true}, 3)
+	ruleBroker(c)
+	condRules(c, pubsubOwners, map[string]int{"W1": 5, "W2": 5, "W2b": 5, "W3": 20, "W4": 20, "W6": 20, "W7": 2})
+}
+
+func checkC11(c *Ctx) {
+	c.R.Clauses = append(c.R.Clauses,
+		"G1: every service / job goroutine of Orchestrator.Run, Group and srv.Wait is counted and awaited before the function returns", "O1: no error of Start/Wait/Run/ParallelForEach/Queue.Add is dropped in srv",
+		"O2: the Cleanup service continues on error and on panic and recover-wraps every job", "O3: the orchestrator loop drains with Remove before Wait and returns after wg.Wait")
+	c.R.NotCov = append(c.R.NotCov, "'exactly once when accepted while the pool keeps running'", "late Add racing shutdown", "Group keeping members alive until they return")
+	ruleG1(c, map[string]bool{"srv": true}, 5)
+	ruleSrv(c)
+	ruleB2(c, map[string]bool{"srv": true}, 3)
+}
+
+func checkC12(c *Ctx) {
+	c.R.Clauses = append(c.R.Clauses,
+		"L1/L3d: the Collector's stack is touched only under its mutex and no reference to it escapes", "X4: nil is never stored", "X3: one unwind preference in all three flattening sites", "F3: every ParsePanic branch carries ErrRecoveredPanic")
+	c.R.NotCov = append(c.R.NotCov, "errors.Is/As for every constituent over all error trees", "single-error identity", "Unwind order and multiplicity")
+	owners := map[string]bool{"erc.Collector": true}
+	lockRules(c, owners, map[string]int{"L1": 4})
+	ruleL3dFor(c, map[string]bool{"erc": true}, 4)
+	ruleX4(c)
+	ruleX3(c)
+	ruleF3(c)
 }
 
 func checkC14(c *Ctx) {
 	c.R.Clauses = append(c.R.Clauses,
-		"L1: counter and cond are only touched under mu", "W1/W2/W2b/W3/W4 for the WaitGroup cond: Add broadcasts when the counter reaches zero (the waiter's own wake condition), the watcher broadcasts on cancel under the lock")
+		"L1: counter and cond are only touched under mu", "W1/W2/W2b/W3/W4 for the WaitGroup cond: Add broadcasts when the counter reaches zero (the waiter's own wake condition), the watcher broadcasts on cancel under the lock",
+		"V1: the invariant check dominates the store", "G2: Launch/DoTimes/Operation.Add account before they start")
 	c.R.NotCov = append(c.R.NotCov, "the counter as an arithmetic sum of completed calls")
 	owners := map[string]bool{"fun.WaitGroup": true}
 	lockRules(c, owners, map[string]int{"L1": 4, "L2": 1})
 	condRules(c, owners, map[string]int{"W1": 1, "W2": 1, "W2b": 1, "W3": 1, "W4": 2, "W6": 1})
+	ruleV1(c)
+	ruleG2(c)
+}
+
+func checkC15(c *Ctx) {
+	c.R.Clauses = append(c.R.Clauses,
+		"N1: no wrapper/waiter built by a pure combinator is discarded", "U2: once-wrappers run the function only inside sync.Once.Do and read the result after it", "U3: Lock/WithLock wrappers call under the mutex",
+		"U6: PreHook/PostHook/Join/merge order", "U7: Signal/Launch waiters complete only after the background execution", "L1 for the limit/ttl closures")
+	c.R.NotCov = append(c.R.NotCov, "Limit(n)'s count", "Retry(n)'s attempt count and result", "TTL timing")
+	ruleN1(c, map[string]bool{"fun": true, "ft": true, "adt": true, "dt": true, "itertool": true, "erc": true}, 2)
+	ruleU2(c)
+	ruleU3(c)
+	ruleU6(c)
+	ruleU7(c)
+	lockRules(c, map[string]bool{"fun.limitExec": true, "fun.ttlExec": true}, map[string]int{"L1": 2})
+}
+
+func checkC16(c *Ctx) {
+	c.R.Clauses = append(c.R.Clauses,
+		"D1: list/stack nodes and headers are never copied by value", "D2/D2b: attach only detached elements, detach only members", "D3: forward and backward links change in pairs together with the length", "N3: no no-op relink")
+	c.R.NotCov = append(c.R.NotCov, "equality with a sequence model over operation sequences", "JSON", "iterator values", "nil-receiver safety")
+	dtp := map[string]bool{"dt": true}
+	ruleD1(c, dtp, 20)
+	ruleD2(c, 4)
+	ruleD3(c, dtp, 6)
+	ruleN3(c, dtp)
+}
+
+func checkC17(c *Ctx) {
+	c.R.Clauses = append(c.R.Clauses,
+		"only the clause 'the list remains fully usable afterwards': D1 (the sorted list is moved back, not copied over the header), D2/D3 on the re-insertion paths used by the sorts")
+	c.R.NotCov = append(c.R.NotCov, "permutation, order, stability", "IsSorted's boundary behaviour", "heap order")
+	dtp := map[string]bool{"dt": true}
+	ruleD1(c, dtp, 20)
+	ruleD2(c, 4)
+	ruleD3(c, dtp, 6)
+}
+
+func checkC18(c *Ctx) {
+	c.R.Clauses = append(c.R.Clauses,
+		"D6: index and order list change together", "L1/L2: hash and list are only touched under the set's mutex (per-variable lock identity: the other set's state needs the other set's lock)",
+		"L3d/L3b: iterators over the set's state leave only wrapped in WithLock, and the map is never ranged from another goroutine", "N1: the lock wrapper is not discarded", "D1 via List")
+	c.R.NotCov = append(c.R.NotCov, "agreement with a reference set", "Equal's answer", "JSON round trip", "insertion order")
+	owners := map[string]bool{"dt.Set": true}
+	ruleD6(c, 3)
+	lockRules(c, owners, map[string]int{"L1": 8, "L2": 4})
+	ruleL3dFor(c, map[string]bool{"dt": true}, 10)
+	ruleN1(c, map[string]bool{"dt": true}, 0)
+	ruleD1(c, map[string]bool{"dt": true}, 20)
+}
+
+func checkC19(c *Ctx) {
+	c.R.Clauses = append(c.R.Clauses, "H1: every writer of counts maintains totalCount", "H4: Export and Import agree on every Snapshot field")
+	c.R.NotCov = append(c.R.NotCov, "quantile precision", "bucket arithmetic", "reachability of the invariant panics")
+	ruleH(c)
+}
+
+func checkC20(c *Ctx) {
+	c.R.Clauses = append(c.R.Clauses,
+		"L1/L2/L3: the iterator closures look at link/next/prev/closed only under the lock (Deque producers leave only through WithLock)", "L4: the Queue producer decides and parks in one critical section",
+		"D5: a link loaded at the tail is followed only after a nil test", "W2/W2b/W3/W6: iterators are woken by Add/Push, Close and cancellation")
+	c.R.NotCov = append(c.R.NotCov, "'each exactly once, in order' under concurrent removal as a sequence property")
+	lockRules(c, pubsubOwners, map[string]int{"L1": 20, "L2": 8, "L3": 2})
+	ruleL4(c, pubsubOwners, 18)
+	ruleD5(c, 2)
+	condRules(c, pubsubOwners, map[string]int{"W1": 5, "W2": 5, "W2b": 5, "W3": 20, "W4": 20, "W6": 20, "W7": 2})
 }
 
 func init() {
 	propChecks["DBG"] = func(c *Ctx) {
-		all := map[string]bool{"fun": true, "pubsub": true, "srv": true, "itertool": true, "adt": true, "dt": true, "erc": true, "ers": true, "ft": true}
 		ruleN1(c, nil, 0)
 		ruleN2(c, []FieldID{{Pkg: "fun", Type: "WorkerGroupConf"}, {Pkg: "pubsub", Type: "QueueOptions"}, {Pkg: "pubsub", Type: "DequeOptions"}, {Pkg: "pubsub", Type: "BrokerOptions"}}, 0)
-		ruleN3(c, all)
-		ruleB1(c, all, 0)
-		ruleB2(c, all, 0)
-		dtp := map[string]bool{"dt": true, "pubsub": true}
-		ruleD1(c, all, 0)
-		ruleD3(c, dtp, 0)
-		ruleD3dom(c, 0)
-		ruleD2(c, 0)
-		ruleD5(c, 0)
-		ruleD6(c, 0)
-		ruleX1(c, 0)
-		ruleT1(c)
-		ruleX2(c)
-		ruleX3(c)
-		ruleX4(c)
-		ruleH(c)
-		ruleX5(c)
-		ruleX6(c, "Queue", "Deque")
-		ruleG1(c, all, 0)
-		ruleG2(c)
-		ruleP1(c, all, 0)
-		ruleP2(c, all, 0)
-		ruleP3(c)
+		ruleU2(c)
+		ruleU6(c)
+		ruleU7(c)
+		ruleV1(c)
+		ruleL4(c, pubsubOwners, 0)
+		rulePS1(c)
+		ruleForcePush(c)
+		ruleBroker(c)
+		ruleSrv(c)
 	}
 }
